@@ -97,3 +97,90 @@ def corpus_charts():
         for i, ch in enumerate(sf.charts):
             out.append((f"{rel}#{i}", sf, ch))
     return out
+
+
+# ---------------------------------------------------------------------------
+# generated note-data texts (shared by C07, C08, C13)
+# ---------------------------------------------------------------------------
+
+ROWS_PER_MEASURE = (1, 2, 3, 4, 5, 8, 12, 16, 24, 32, 48, 64, 192)
+INDENTS = ("", " ", "\t  ")
+TRAILS = ("", " ")
+NEWLINES = ("\n", "\r\n")
+SEP_STYLES = ("tight", "blank-lines", "spaced")
+EDGE_STYLES = ("none", "newline", "blank-lines")
+
+
+def render(sections, indent="", trail="", nl="\n", sep="tight", edge="none"):
+    """
+    sections: list (players) of lists (measures) of lists (rows) of row strings
+    (cells already rendered, e.g. '10[7]0').  Returns the note data text.
+    """
+    def sepstr(ch):
+        if sep == "tight":
+            return nl + ch + nl
+        if sep == "blank-lines":
+            return nl + nl + ch + nl + nl
+        return trail + nl + " " + ch + " " + nl
+    lead = {"none": "", "newline": nl, "blank-lines": nl + " " + nl}[edge]
+    tail = {"none": "", "newline": nl, "blank-lines": nl + nl}[edge]
+    secs = []
+    for sec in sections:
+        ms = []
+        for rows in sec:
+            ms.append(nl.join(indent + r + trail for r in rows))
+        secs.append(sepstr(",").join(ms))
+    return lead + sepstr("&").join(secs) + tail
+
+
+def intended_notes(sections):
+    """The notes a rendered text is meant to contain (third opinion next to the model reader)."""
+    out = []
+    for p, sec in enumerate(sections):
+        for m, rows in enumerate(sec):
+            for r, row in enumerate(rows):
+                cells = M._CELL.findall(row)
+                for c, (ch, ks) in enumerate(cells):
+                    if ch != "0":
+                        out.append((Fraction(4 * m) + Fraction(4 * r, len(rows)), c, ch, p, int(ks) if ks else None))
+    return out
+
+
+def measure_rows(nrows, cols, salt):
+    """Deterministic content for a measure: notes on the first, a middle and the last row."""
+    kinds = ("1", "2", "M", "4", "L", "3")
+    rows = [["0"] * cols for _ in range(nrows)]
+    rows[0][salt % cols] = kinds[salt % 6]
+    rows[nrows - 1][(salt + 1) % cols] = kinds[(salt + 1) % 6]
+    mid = nrows // 2
+    rows[mid][(salt + 2) % cols] = kinds[(salt + 2) % 6]
+    if nrows > 3:
+        rows[(nrows // 3)][(salt + 3) % cols] = kinds[(salt + 3) % 6]
+    return ["".join(r) for r in rows]
+
+
+def shape_sections(shape, players, cols):
+    """shape = tuple of rows-per-measure; the same shape (different content) per player."""
+    return [
+        [measure_rows(n, cols, salt=3 * p + 5 * m + n) for m, n in enumerate(shape)]
+        for p in range(players)
+    ]
+
+
+def format_shapes(thorough):
+    shapes = [(a,) for a in ROWS_PER_MEASURE] + [(a, b) for a in ROWS_PER_MEASURE for b in ROWS_PER_MEASURE]
+    if thorough:
+        shapes += [(a, b, c) for a in ROWS_PER_MEASURE for b in ROWS_PER_MEASURE for c in ROWS_PER_MEASURE]
+    else:
+        shapes += [(a, b, a) for a in (1, 3, 5) for b in (4, 12)]
+    return shapes
+
+
+def format_styles():
+    return [
+        dict(indent=i, trail=t, nl=n, sep=s, edge=e)
+        for i in INDENTS for t in TRAILS for n in NEWLINES for s in SEP_STYLES for e in EDGE_STYLES
+    ]
+
+
+KS_CELLS = ("0", "1", "1[0]", "2[7]", "M[12]", "4[123]", "M", "3")
